@@ -309,6 +309,8 @@ def run(ctx):
 
     wiring.params_used(ctx, "C17.d", wiring.funcs_of(m, "compat.pandas", "compat.polars", "compat.dask", "compat.xarray", "compat.geant4"),
                        "compat:options-read")
+    wiring.same_name_forwarding(ctx, "C17.d", m, wiring.funcs_of(m, "compat.pandas", "compat.polars", "compat.dask", "compat.xarray", "compat.geant4"),
+                       "compat:options-forwarded")
 
     # ---- C17.g names carried by the container ---------------------------------------------------------------------------
     ctx.rule("C17.g", "axis names carried by the inputs reach the histogram whenever the caller gave none", 4)
